@@ -58,6 +58,8 @@ let wop = function
   | L [A "he"; m; c] -> WHttpError (str m, z_of_int (int c))
   | L [A "rd"; u; c] -> WRedirect (str u, z_of_int (int c))
   | L [A "ob"] -> WObs
+  | L [A "cp"; b] -> WWrite (str b)      (* io.Copy from a plain reader = one Write (no call at all for no data: filtered below) *)
+  | L [A "ab"; z] -> WSetStatus (z_of_int (int z))   (* AbortWithStatus(code) where nothing is left to skip: c.Resp.WriteHeader(code) *)
   | x -> failwith ("bad writer op " ^ to_string x)
 let swev = function
   | WH c -> L [A "wh"; sint (int_of_z c)]
@@ -67,6 +69,8 @@ let c08_case = function
   | L [A "c08"; L sc; L hs] ->
     (* (pre () stdK): the handler is a net/http handler behind one of rux's adaptors; it cannot call Next, the rest of
        the chain follows it automatically: same flattened order *)
+    let nonempty_cp = function L [A "cp"; b] -> str b <> [] | _ -> true in
+    let hs = List.map (function L (L pre :: L post :: rest) -> L (L (List.filter nonempty_cp pre) :: L (List.filter nonempty_cp post) :: rest) | x -> x) hs in
     let hs = List.map (function
         | L [L pre; L post] -> (List.map wop pre, List.map wop post)
         | L [L pre; L []; A ("std0" | "std1" | "std2" | "std3" | "std4" | "std5")] -> (List.map wop pre, [])
